@@ -2,32 +2,89 @@
 
 package pool
 
-import "sync"
+import (
+	"reflect"
+	"sync"
+	"time"
+	"unsafe"
+)
 
 // Verification hook (build tag "verif"): a pool of objects that detects a
 // second Put of an object that is still in the pool, and that keeps released
 // objects in a FIFO quarantine before handing them out again (so that a stale
 // holder and the next holder do not meet by luck of the scheduler only).
+// While an object is in the pool its memory is zeroed (its content is kept
+// aside and restored by Get): a stale reader sees an empty object, and a
+// stale write is detected, by a scanner that looks at all pooled objects
+// every 100 ms and again when the object leaves the pool.
 // Objects must be pointers (comparable).
 const vfObjQuarantine = 512
+
+type vfParkedObj struct {
+	v     any
+	saved reflect.Value // copy of *v taken at Put; invalid if v is not a pointer
+	mem   []byte        // the memory of *v
+}
 
 type ObjPool struct {
 	New func() any
 
-	mu sync.Mutex
-	q  []any
-	in map[any]struct{}
+	mu  sync.Mutex
+	q   []vfParkedObj
+	in  map[any]struct{}
+	reg bool
+}
+
+var vfObjPools struct {
+	sync.Mutex
+	pools []*ObjPool
+	once  sync.Once
+}
+
+func (p *ObjPool) vfRegister() {
+	vfObjPools.Lock()
+	vfObjPools.pools = append(vfObjPools.pools, p)
+	vfObjPools.Unlock()
+	vfObjPools.once.Do(func() {
+		go func() {
+			for {
+				time.Sleep(100 * time.Millisecond)
+				vfObjPools.Lock()
+				pools := append([]*ObjPool(nil), vfObjPools.pools...)
+				vfObjPools.Unlock()
+				for _, p := range pools {
+					p.mu.Lock()
+					for i := range p.q {
+						p.q[i].check()
+					}
+					p.mu.Unlock()
+				}
+			}
+		}()
+	})
+}
+
+func (o *vfParkedObj) check() {
+	for i, b := range o.mem {
+		if b != 0 {
+			vfAbort("pooled object (%T) was written after its release (offset %d of %d)", o.v, i, len(o.mem))
+		}
+	}
 }
 
 func (p *ObjPool) Get() any {
 	p.mu.Lock()
 	if len(p.q) > vfObjQuarantine {
-		v := p.q[0]
-		p.q[0] = nil
+		o := p.q[0]
+		p.q[0] = vfParkedObj{}
 		p.q = p.q[1:]
-		delete(p.in, v)
+		delete(p.in, o.v)
+		o.check()
+		if o.saved.IsValid() {
+			reflect.ValueOf(o.v).Elem().Set(o.saved)
+		}
 		p.mu.Unlock()
-		return v
+		return o.v
 	}
 	p.mu.Unlock()
 	if p.New != nil {
@@ -41,17 +98,29 @@ func (p *ObjPool) Put(v any) {
 	if p.in == nil {
 		p.in = make(map[any]struct{})
 	}
+	if !p.reg {
+		p.reg = true
+		p.vfRegister()
+	}
 	if _, dup := p.in[v]; dup {
 		p.mu.Unlock()
 		vfAbort("double release of a pooled object (%T)", v)
 	}
 	p.in[v] = struct{}{}
+	o := vfParkedObj{v: v}
+	if rv := reflect.ValueOf(v); rv.Kind() == reflect.Pointer && !rv.IsNil() && rv.Elem().Type().Size() > 0 {
+		el := rv.Elem()
+		o.saved = reflect.New(el.Type()).Elem()
+		o.saved.Set(el)
+		el.Set(reflect.Zero(el.Type()))
+		o.mem = unsafe.Slice((*byte)(rv.UnsafePointer()), el.Type().Size())
+	}
 	if cap(p.q)-len(p.q) == 0 && len(p.q) > 0 {
 		// compact: the slice only ever grows at the tail and shrinks at the head
-		nq := make([]any, len(p.q), 2*len(p.q)+16)
+		nq := make([]vfParkedObj, len(p.q), 2*len(p.q)+16)
 		copy(nq, p.q)
 		p.q = nq
 	}
-	p.q = append(p.q, v)
+	p.q = append(p.q, o)
 	p.mu.Unlock()
 }
